@@ -172,6 +172,7 @@ func runC15(c *Ctx) {
 	// (b) attribution through the streamer
 	runAttribution(c, "C15", c.N(25, 500))
 	runReshaped(c)
+	runRetyped(c, "C15")
 }
 
 // runAttribution: table-id re-announcements inside and across transactions, and mapper disagreements.
@@ -308,6 +309,49 @@ func runReshaped(c *Ctx) {
 			c.R.Add(vh.Mismatch{Kind: "spec", What: "reshaped: rows of a table map whose column count differs from the mapper's table were delivered instead of rejected",
 				Case: fmt.Sprintf("cfg=%s units=%v column counts=%v", cfg, h.kinds, colCounts(h.tables)), Impl: ir.outcome, InDomain: true})
 		}
+	}
+}
+
+// runRetyped: one table id announced again for the SAME database.table with the same number of columns but other column
+// types / metadata (ALTER TABLE ... MODIFY between two statements): every rows event is split and decoded with the table
+// map in force when it arrives - the length rule (Rows) and the value decoder (the streamer's column walk) must keep
+// agreeing on the size of each cell, so nothing of the earlier shape may survive in a per-table cache.
+func runRetyped(c *Ctx, prop string) {
+	r := c.Rng
+	for hi := 0; hi < c.N(10, 150); hi++ {
+		cfg := baseCfg(r, r.Intn(len(baseCfgs)))
+		o := histOpts{units: 3 + r.Intn(5), maxCols: 4, maxRows: 2, rotations: hi%3 == 0, ignorables: false, sameColCount: true,
+			kindsOnly: []string{"txXid", "txCommit", "autoRows", "ddl"}}
+		h := genHistory(r, cfg, o)
+		if len(h.tables) < 2 {
+			continue
+		}
+		for i := range h.tables {
+			h.tables[i].id, h.tables[i].db, h.tables[i].name = 4242, "shop", "orders"
+			for j := range h.tables[i].cols {
+				// the mapper answers with one table: same column names and signedness in every shape
+				h.tables[i].cols[j].field = h.tables[0].cols[j].field
+			}
+		}
+		for i := range h.events {
+			e := &h.events[i]
+			if e.kind == "tablemap" {
+				e.body = e.table.bodyVal()
+			} else if e.kind == "rows" {
+				e.body = e.rows.bodyVal(*e.table)
+			}
+		}
+		h.encode(c)
+		f0, o0 := startOf(h)
+		a := fullAttempt(h, c, f0, o0)
+		shapes := map[string]bool{}
+		for _, e := range h.events {
+			if e.kind == "rows" {
+				shapes[e.table.typeKeys()] = true
+			}
+		}
+		c.R.Count(fmt.Sprintf("retyped/tables%d/shapes-used%d", len(h.tables), len(shapes)))
+		compareAttempt(c, prop, "retyped", a, h.mapperVals(), true)
 	}
 }
 
